@@ -16,4 +16,8 @@ fi
 mkdir -p $V
 rsync -a --exclude .work --exclude harness/bin --exclude replays/found --exclude .git --exclude seeded /verif/ $V/
 sed -i "s#=> /repo\$#=> $W#" $V/harness/go.mod
+if [ -n "${SEEDRUN_REPLAY:-}" ]; then
+  cd $V && VERIF_REPO=$W VERIF_SHOW_HISTORY=1 ./check $P --replay $SEEDRUN_REPLAY 2>&1 | tail -${SEEDRUN_LINES:-40}
+  exit 0
+fi
 cd $V && VERIF_REPO=$W VERIF_EVIDENCE_DIR=$B/evidence ./check $P --tier $T --seed $SEED 2>&1 | grep -E "^VIOLATION|^  [A-Za-z]|^INCONCLUSIVE|tier=" | cut -c1-400 | head -${SEEDRUN_LINES:-6}
